@@ -66,6 +66,14 @@ def run(tier, seed, replay=None):
             # some files that are not valid UTF-8 (scan falls back to Latin-1; check must decode identically)
             files = list(c11.walk_expected(nodes))
             for comps, x in files:
+                if comps[-1].endswith(".py") and x >= 2 and rng.random() < 0.3:
+                    # invalid UTF-8 overall, with valid multi-byte sequences in the LAST token of the function: a reader that
+                    # decodes differently (replacement characters vs Latin-1) reports another end column / name
+                    p = os.path.join(root, *comps)
+                    body = b"def f\xe9():\n" if rng.random() < 0.5 else b"def f():\n"
+                    body += b"    x = 1\n" * (x - 2) + b"    s = \"\xc3\xa9\xc3\xa9 \xff\"\n"
+                    open(p, "wb").write(body)
+                    continue
                 if rng.random() < 0.15 and comps[-1].endswith((".py", ".js", ".c")):
                     p = os.path.join(root, *comps)
                     data = open(p, "rb").read()
